@@ -219,6 +219,20 @@ def metal_static(p):
             stack.append((idx, it))
         elif it["k"] == "close":
             stack.pop()
+    # names of the i18n:name blocks written inside each translated element (nearest enclosing translation)
+    tstack = []
+    for it in items:
+        if it["k"] == "open":
+            it["tnames"] = []
+            if it.get("nm"):
+                for anc in reversed(tstack):
+                    if anc is not None:
+                        if it["nm"] not in anc["tnames"]:
+                            anc["tnames"].append(it["nm"])
+                        break
+            tstack.append(it if (it.get("tr", {}).get("m") == "yes" and it["sub"]["m"] == "none") else None)
+        elif it["k"] == "close":
+            tstack.pop()
     return slots, tslots
 
 
